@@ -112,3 +112,71 @@ def E_FWD(ctx, facts, only=None, min_count=None):
     if min_count is not None:
         ctx.floor("forwarding-methods", n, min_count, "plain forwarding I/O methods")
     return n
+
+
+def fwd_tls_stream(ctx, facts, self_ty, state_adt, label):
+    """Exception rule for the lazy-handshake TLS streams: read/write go through handshake(cx, closure) whose closure
+    forwards the same operation; flush/shutdown answer Ready(Ok) only while still in the Handshake state."""
+    from core import arms, closure_arg_of
+    hs = facts.fn(self_ty + "::handshake")
+    ctx.touched(hs)
+    n = 0
+    for f in io_methods(facts):
+        if not self_suffix(f).endswith(self_ty):
+            continue
+        nm = f.d["name"]
+        ctx.touched(f)
+        key = "%s::%s" % (label, nm)
+        if nm in ("poll_read", "poll_write", "poll_write_vectored"):
+            n += 1
+            hc = [c for c in f.calls() if c.res == hs.key or norm(c.name).endswith(self_ty + "::handshake")]
+            if len(hc) != 1:
+                ctx.bad(key + "|via-handshake", "%s does not go through handshake() exactly once (%d calls)" % (nm, len(hc)), f.where())
+                continue
+            c = hc[0]
+            rets = assigns_to_return(f, f.live)
+            ok_ret = len(rets) == 1 and rets[0][0] == "call" and rets[0][1] == c.bb
+            cx_ok = any(r.kind == "arg" and getattr(r, "index", None) == 2 for r in f.roots(c.args[1], through_calls=False))
+            ck = closure_arg_of(f, c, 2)
+            body = facts.fns.get(ck) if ck else None
+            inner = [x for x in body.calls() if norm(x.decl or x.name).split("::")[-1] == nm] if body else []
+            ok_inner = len(inner) == 1 and len(assigns_to_return(body, body.live)) == 1 and assigns_to_return(body, body.live)[0][1] == inner[0].bb
+            if ok_inner:
+                rr = body.roots(inner[0].args[0])
+                ok_inner = any(r.kind == "arg" and getattr(r, "index", None) == 2 for r in rr)
+                cxr = body.roots(inner[0].args[1], through_calls=False)
+                ok_inner = ok_inner and any(r.kind == "arg" and getattr(r, "index", None) == 3 for r in cxr)
+                br = body.roots(inner[0].args[2], through_calls=False)
+                ok_inner = ok_inner and any(r.kind == "arg" and getattr(r, "index", None) == 1 for r in br)  # captured buf
+            ctx.check(ok_ret and cx_ok and ok_inner, key + "|via-handshake",
+                      "%s = handshake(cx, |stream, cx| stream.%s(cx, buf)): the operation reaches the TLS stream only after the handshake" % (nm, nm),
+                      "%s does not forward through handshake() unchanged (ret=%s cx=%s closure=%s)" % (nm, ok_ret, cx_ok, ok_inner), f.where())
+        elif nm in ("poll_flush", "poll_shutdown"):
+            n += 1
+            sw, reg = arms(f, state_adt)
+            if set(reg) != {"Handshake", "Streaming"}:
+                ctx.undecided(key + "|arms", "match on the TLS state not recognised: %s" % sorted(reg), f.where())
+                continue
+            hcalls = [c for c in f.calls() if c.bb in reg["Handshake"]]
+            hrets = assigns_to_return(f, reg["Handshake"])
+            ok_h = not hcalls and len(hrets) == 1 and hrets[0][0] == "stmt" and hrets[0][2]["r"].get("v") == "Ready"
+            scalls = [c for c in f.calls() if c.bb in reg["Streaming"] and norm(c.decl or c.name).split("::")[-1] == nm]
+            srets = assigns_to_return(f, reg["Streaming"])
+            ok_s = len(scalls) == 1 and len(srets) == 1 and srets[0][0] == "call" and srets[0][1] == scalls[0].bb and \
+                any(r.kind == "arg" and getattr(r, "index", None) == 2 for r in f.roots(scalls[0].args[1], through_calls=False))
+            ctx.check(ok_h and ok_s, key + "|state-dispatch", "%s answers Ready(Ok) only while handshaking and forwards to the TLS stream once streaming" % nm,
+                      "%s: handshake arm ok=%s, streaming arm ok=%s" % (nm, ok_h, ok_s), f.where())
+    ctx.floor(label + "|io-methods", n, 4, "I/O methods of the lazy TLS stream")
+    # handshake(): action runs only after the handshake future resolved Ok, or when already streaming
+    acts = [c for c in hs.calls() if norm(c.decl or c.name).endswith("FnOnce::call_once")]
+    ctx.floor(label + "::handshake|action-calls", len(acts), 2, "invocations of the I/O action in handshake()")
+    for c in acts:
+        ok, w = hs.guarded(c.bb, lambda lab: lab.kind == "variant" and (lab.variants == {"Streaming"} or
+                                                                        (lab.variants == {"Ok"} and hs.call_defining(lab.place["l"]) is not None)))
+        ctx.check(ok, label + "::handshake|action-after-handshake", "the I/O action runs only in the Streaming state or on the Ok edge of the handshake future",
+                  "the I/O action can run before the handshake completed", c.where(), hs.path_desc(w))
+    polls = [c for c in hs.calls() if norm(c.decl or c.name).endswith("::poll")]
+    ctx.floor(label + "::handshake|drives", len(polls), 1, "poll of the handshake future")
+    # on handshake error: Err is returned, state stays Handshake (no plaintext fallback)
+    for (b, i, s) in hs.aggregates("Result", "Err"):
+        pass
